@@ -84,7 +84,7 @@ struct MaskedWorld : World {
             else if (c < 89) pl.add("s.convert", {(int64_t)r.below(NST), (int64_t)r.below(NST), n});
             else if (c < 91) pl.add("s.to_x1", {(int64_t)r.below(NST)});
             else if (c < 94) pl.add("k.key", {(int64_t)r.below(2), (int64_t)r.below(3), sd});
-            else pl.add("a.aead", {(int64_t)r.below(3), (int64_t)r.pickv({0, 1, 7, 8, 9, 15, 16, 17, 33, 100}), (int64_t)r.pickv({0, 1, 7, 8, 9, 16, 17, 40}), (int64_t)r.below(3), sd, (int64_t)r.below(6)});
+            else pl.add("a.aead", {(int64_t)r.below(3), (int64_t)(r.chance(1, 8) ? r.pickv({511, 512, 520, 1023, 1024, 1040, 2100}) : r.pickv({0, 1, 7, 8, 9, 15, 16, 17, 33, 100})), (int64_t)(r.chance(1, 10) ? r.pickv({512, 519, 1024, 1031}) : r.pickv({0, 1, 7, 8, 9, 16, 17, 40})), (int64_t)r.below(3), sd, (int64_t)r.below(6)});
         }
     }
 
@@ -431,7 +431,7 @@ struct MaskedWorld : World {
         }
         if (nm == "a.aead") {
             int alg = (int)(op.u(0) % 3);
-            size_t mlen = (size_t)(op.u(1) % 300), adlen = (size_t)(op.u(2) % 100);
+            size_t mlen = (size_t)(op.u(1) % 2200), adlen = (size_t)(op.u(2) % 1100);
             int tamper = (int)(op.u(3) % 3);
             uint64_t sd = op.u(4);
             size_t klen = alg == 2 ? 20 : 16;
